@@ -376,9 +376,26 @@ def norm_cond(disc, kind, vals):
     return disc, kind, vals
 
 
+PURE_FNS = ('core::slice::<impl [T]>::get_mut', 'core::slice::<impl [T]>::get', 'core::slice::<impl [T]>::len', 'core::slice::<impl [T]>::is_empty',
+            'core::option::Option::<T>::is_none', 'core::option::Option::<T>::is_some', 'core::slice::<impl [T]>::first', 'core::slice::<impl [T]>::last')
+
+
+def purify(t):
+    """Calls of side-effect-free std functions with identical arguments denote the same value: drop the call-site id."""
+    if not isinstance(t, tuple) or not t:
+        return t
+    if t[0] == 'call' and t[2] in PURE_FNS:
+        return ('pcall', t[2], tuple(purify(a) for a in t[3]))
+    if t[0] in ('loc',):
+        return t
+    return tuple(purify(x) if isinstance(x, tuple) else x for x in t)
+
+
 def cond_ok(st, disc, kind, vals):
     """Record the condition; return False if it contradicts an earlier one on the same term."""
     disc, kind, vals = norm_cond(disc, kind, vals)
+    key_disc = disc
+    disc = purify(disc)
     c = const_int(disc)
     if c is not None:
         return (c in vals) if kind == 'in' else (c not in vals)
@@ -403,7 +420,7 @@ def cond_ok(st, disc, kind, vals):
         else:
             ex = set(vals) | (cur[1] if cur else set())
             known[disc] = ('notin', ex)
-    st['conds'].append((disc, (kind, tuple(vals)), None))
+    st['conds'].append((key_disc, (kind, tuple(vals)), None))
     return True
 
 
